@@ -129,6 +129,7 @@ theorem int_le (a b : Int) : Coord.le a b = decide (a ≤ b) := rfl
 theorem int_sub (a b : Int) : Coord.sub a b = a - b := rfl
 theorem int_add (a b : Int) : Coord.add a b = a + b := rfl
 theorem int_half (a : Int) : Coord.half a = a / 2 := rfl
+theorem int_mid (a b : Int) : Coord.mid a b = (a + b) / 2 := rfl
 theorem int_zero : (Coord.zero : Int) = 0 := rfl
 theorem int_ltInf (a : Int) : Coord.ltInf a = true := rfl
 
@@ -370,7 +371,7 @@ theorem split_facts (G : Prop) (wt : Int → Int → Bool) (coord : Nat) (sum : 
   | zero => intro it mn mx prev mv out _ h; simp [split] at h
   | succ fuel ih =>
     intro it mn mx prev mv out hJ h
-    simp only [split, int_add, int_half] at h
+    simp only [split, int_mid, int_add, int_half] at h
     have hs := scan_spec items coord ((mn + mx) / 2)
     split at h
     · next hn =>
@@ -450,7 +451,7 @@ theorem split_repeat_exits (wt : Int → Int → Bool) (coord : Nat) (sum : Int)
     split wt coord sum items (fuel + 1) it mn mx
       (some (scan items coord ((mn + mx) / 2)).count) mv ≠ .fuel := by
   intro h
-  simp only [split, int_add, int_half] at h
+  simp only [split, int_mid, int_add, int_half] at h
   split at h
   · simp at h
   · next idx nd hn =>
@@ -480,7 +481,7 @@ theorem split_terminates_int_aux (wt : Int → Int → Bool) (coord : Nat) (sum 
         | succ f =>
           rw [← hc]
           exact split_repeat_exits wt coord sum items f (it + 1) mn' mx' mv'
-    simp only [split, int_add, int_half] at h
+    simp only [split, int_mid, int_add, int_half] at h
     split at h
     · split at h
       · cases h
